@@ -258,6 +258,27 @@ func init() {
 		"time.Sleep": nop,
 		"time.Since": func(in *Interp, fr *frame, fn *ssa.Function, a []Value) Value { return in.tt.BVConst(0, 64) },
 
+		// ---- LZ4: contract stubs ----
+		"github.com/pierrec/lz4/v4.UncompressBlock": func(in *Interp, fr *frame, fn *ssa.Function, a []Value) Value {
+			// contract: error, or n <= len(dst) bytes written.  Explored: error,
+			// n == len(dst), n == len(dst)-1; written contents are left as they
+			// are (zero) — decoding of frame contents is explored through
+			// uncompressed frames, which reach the same decoder.
+			dst := a[1].(Slice)
+			k := in.choose(3)
+			switch k {
+			case 0:
+				return Tuple{in.tt.BVConst(uint64(len(dst)), 64), Iface{}}
+			case 1:
+				return Tuple{in.tt.BVConst(0, 64), in.mkError("lz4: invalid source or destination buffer too short")}
+			}
+			n := len(dst) - 1
+			if n < 0 {
+				n = 0
+			}
+			return Tuple{in.tt.BVConst(uint64(n), 64), Iface{}}
+		},
+
 		// ---- sorting ----
 		"sort.Slice":       sortSlice,
 		"sort.SliceStable": sortSlice,
